@@ -183,9 +183,32 @@ fn ladder_fst(n: u64, variant: u64) -> Vec<u8> {
     b.into_inner().unwrap()
 }
 
+/// The keys of the ladder with index parity `par` (disjoint halves).
+fn ladder_part(n: u64, par: u64) -> Vec<u8> {
+    let mut b = raw::Builder::new(Vec::with_capacity(1 << 20)).unwrap();
+    for i in 0..n {
+        if i % 2 == par {
+            b.insert(format!("{:08}", i), i).unwrap();
+        }
+    }
+    b.into_inner().unwrap()
+}
+
 pub fn replay(case: &Value) -> Result<String, String> {
     if let Some(n) = case["ladder_n"].as_u64() {
         let k = case["k"].as_u64().unwrap_or(1) as usize;
+        if k >= 100 {
+            let all = ladder_fst(n, 0);
+            let (e, o) = (ladder_part(n, 0), ladder_part(n, 1));
+            let refs: Vec<&[u8]> = match k {
+                102 => vec![&all[..], &all[..]],
+                103 => vec![&all[..], &all[..], &all[..]],
+                104 => vec![&all[..], &all[..], &all[..], &all[..]],
+                202 => vec![&e[..], &o[..]],
+                _ => vec![&e[..], &o[..], &e[..]],
+            };
+            return run_ops(&refs, 8).map(|(c, m)| format!("{} items, max extra heap {}", c, m));
+        }
         let fsts: Vec<Vec<u8>> = (0..k as u64).map(|v| ladder_fst(n, v)).collect();
         if k == 1 {
             return run_streams(&fsts[0], 8, &[b"00005000".to_vec()]).map(|(c, m)| format!("{} items, max extra heap {}", c, m));
@@ -208,7 +231,7 @@ pub fn replay(case: &Value) -> Result<String, String> {
 pub fn plan(tier: Tier) -> Plan {
     let mut p = Plan::new("C14", "exploration");
     let thorough = tier.thorough();
-    p.rule = "counting allocator, per-thread. (1) exhaustive in small scopes: for every FST of all subsets of U_ab3 (values 3i+1) and of the fan-out families: (a) Fst::new/Map::new/Set::new over borrowed bytes and every get/contains_key/contains of the probe closure perform ZERO allocations (allocation count); (b) stream(), every range (all kind pairs x bound keys of length <= 2; large sets <= 1) and three automaton searches: live heap after EVERY next() <= heap before construction + 256 + 256*(L+2) + 4*(L+16); (c) union/intersection/difference/symmetric_difference over k = 2..4 FST-backed streams (the FST, its even- and odd-indexed halves, itself): live heap after every next() <= before + 256 + k*(stream bound + 2*max(L,64) + 512). (2) finite ladder (not exhaustive): FSTs of N = 1e4, 1e5 (thorough 1e6) 8-byte keys: full stream/range/search and k = 2..8 way operations: max extra heap identical (+-256 B) for all N. non-trivial = traversals yielding >= 2 items".into();
+    p.rule = "counting allocator, per-thread. (1) exhaustive in small scopes: for every FST of all subsets of U_ab3 (values 3i+1) and of the fan-out families: (a) Fst::new/Map::new/Set::new over borrowed bytes and every get/contains_key/contains of the probe closure perform ZERO allocations (allocation count); (b) stream(), every range (all kind pairs x bound keys of length <= 2; large sets <= 1) and three automaton searches: live heap after EVERY next() <= heap before construction + 256 + 256*(L+2) + 4*(L+16); (c) union/intersection/difference/symmetric_difference over k = 2..4 FST-backed streams (the FST, its even- and odd-indexed halves, itself): live heap after every next() <= before + 256 + k*(stream bound + 2*max(L,64) + 512). (2) finite ladder (not exhaustive): FSTs of N = 1e4, 1e5 (thorough 1e6) 8-byte keys: full stream/range/search, k = 2..8 way operations over partially overlapping FSTs, and operations over 2-4 identical and over disjoint FSTs (long runs in which nothing is emitted): max extra heap identical (+-256 B) for all N. non-trivial = traversals yielding >= 2 items".into();
     p.assumptions = vec![
         "'for all N' beyond the ladder is not decided; transient per-item allocations that are freed again do not violate the property as stated".into(),
         "memory of user-supplied streams is outside the property".into(),
@@ -246,7 +269,7 @@ pub fn plan(tier: Tier) -> Plan {
                         let (ea, eb) = front::partition(&kvs);
                         let ba = front::build(Front::RawInsert, (3, 3), &ea).unwrap();
                         let bb = front::build(Front::RawInsert, (3, 3), &eb).unwrap();
-                        for fs in [vec![&bytes[..], &ba[..]], vec![&bytes[..], &ba[..], &bb[..]], vec![&ba[..], &bb[..], &bytes[..], &bytes[..]]] {
+                        for fs in [vec![&bytes[..], &ba[..]], vec![&bytes[..], &ba[..], &bb[..]], vec![&ba[..], &bb[..], &bytes[..], &bytes[..]], vec![&bytes[..], &bytes[..]], vec![&ba[..], &bb[..]]] {
                             match run_ops(&fs, l) {
                                 Ok((n, m)) => { st.evals += n; st.transitions += n; st.states += n; st.max(&format!("max_extra_heap_op_k{}", fs.len()), m as u64); }
                                 Err(msg) => rep.violation(format!("ops k={} {}", fs.len(), kvs_str(&kvs)), msg, case()),
@@ -295,6 +318,23 @@ pub fn plan(tier: Tier) -> Plan {
                 Ok((c, m)) => { st.evals += c; st.states += c; st.transitions += c; st.nontrivial += 1; st.count("ladder_points", 1); table.lock().unwrap().insert((1, n), m); }
                 Err(msg) => rep.violation(format!("ladder stream N={}", n), msg, json!({"ladder_n": n, "k": 1})),
             }
+            // inputs for which an operation emits nothing for long runs:
+            // identical FSTs (symmetric difference of an even number, difference)
+            // and disjoint FSTs (intersection)
+            let evens = ladder_part(n, 0);
+            let odds = ladder_part(n, 1);
+            for (tag, refs) in [
+                (102usize, vec![&fsts[0][..], &fsts[0][..]]),
+                (104, vec![&fsts[0][..], &fsts[0][..], &fsts[0][..], &fsts[0][..]]),
+                (103, vec![&fsts[0][..], &fsts[0][..], &fsts[0][..]]),
+                (202, vec![&evens[..], &odds[..]]),
+                (203, vec![&evens[..], &odds[..], &evens[..]]),
+            ] {
+                match run_ops(&refs, 8) {
+                    Ok((c, m)) => { st.evals += c; st.states += c; st.transitions += c; st.count("ladder_points", 1); table.lock().unwrap().insert((tag, n), m); }
+                    Err(msg) => rep.violation(format!("ladder ops case {} N={}", tag, n), msg, json!({"ladder_n": n, "k": tag})),
+                }
+            }
             for k in 2..=8usize {
                 let refs: Vec<&[u8]> = fsts[..k].iter().map(|f| &f[..]).collect();
                 match run_ops(&refs, 8) {
@@ -308,7 +348,7 @@ pub fn plan(tier: Tier) -> Plan {
     p.finish = Some(Box::new(move |st, rep| {
         let t = table.lock().unwrap();
         st.samples.push(json!({"ladder_max_extra_heap": t.iter().map(|((k, n), v)| json!({"k_streams": k, "N": n, "bytes": v})).collect::<Vec<_>>()}));
-        for k in 1..=8usize {
+        for k in (1..=8usize).chain([102, 103, 104, 202, 203]) {
             for w in ns2.windows(2) {
                 if let (Some(a), Some(b)) = (t.get(&(k, w[0])), t.get(&(k, w[1]))) {
                     if (a - b).abs() > 256 {
